@@ -45,8 +45,13 @@ func applyLayout(n *zoo.FNode, layout, idx int) {
 	case 6:
 		n.FP = &zoo.Inner{A: int32(idx), S: "p"}
 	case 8:
-		n.FP = &zoo.Inner{A: int32(idx), S: "key"}
-		n.KM = map[*zoo.Inner]int32{n.FP: int32(idx)}
+		if idx%2 == 0 {
+			// the key is an object of its own, first met as the key (the map is numbered before it)
+			n.KM = map[*zoo.Inner]int32{{A: int32(idx), S: "fresh key"}: int32(idx)}
+		} else {
+			n.FP = &zoo.Inner{A: int32(idx), S: "key"}
+			n.KM = map[*zoo.Inner]int32{n.FP: int32(idx)}
+		}
 	case 9:
 		n.FP = &zoo.Inner{A: int32(idx), S: "shared"}
 		n.IV = []zoo.Inner{{A: 1, S: "v"}, {A: 2, S: "w"}}
